@@ -532,12 +532,30 @@ def run(chooser, traced, body, step_limit=200000):
     S = Sched(chooser, traced, step_limit=step_limit)
     S.register_main()
     old = sys.gettrace()
+    # The collector is switched off for the run and run once, for the objects
+    # of this run, before the scheduler goes away: a suspended generator of
+    # the library that an execution leaves behind in a reference cycle holds
+    # primitives of THIS scheduler; were it finalised at some later moment (in
+    # the middle of another execution) its clean-up would wait on a scheduler
+    # that no longer exists.  (With the collector off, such a leak also stays
+    # visible to the body's own end-of-run checks instead of depending on
+    # when the collector happens to run.)
+    import gc
+    was_on = gc.isenabled()
+    gc.disable()
     sys.settrace(S.tracer)
     try:
-        return body(S)
+        out = body(S)
+        try:
+            gc.collect(0)
+        except BaseException:       # noqa: clean-up of leftovers may be cut short
+            pass
+        return out
     finally:
         sys.settrace(old)
         S.teardown()
+        if was_on:
+            gc.enable()
 
 
 # ------------------------------------------------------------------ choosers
